@@ -37,6 +37,9 @@ func (e *Engine) timeModel(st *State, callee *ssa.Function, name, full string, a
 			e.addPC(st, b.Sle(t, b.BV(64, 1<<62))) // far from the int64 limits: no wrap-around in Add/Sub
 			if st.lastNow != nil {
 				e.addPC(st, b.Sle(st.lastNow, t))
+				if e.cfg != nil && e.cfg.ClockStepNs > 0 {
+					e.addPC(st, b.Sle(t, b.Add(st.lastNow, b.BV(64, uint64(e.cfg.ClockStepNs)))))
+				}
 			}
 			st.lastNow = t
 			return mk(t), true
@@ -69,7 +72,16 @@ func (e *Engine) timeModel(st *State, callee *ssa.Function, name, full string, a
 			now, _ := e.timeModel(st, callee, "Now", full, nil, pos)
 			nt, _ := ns(now)
 			return Scalar{b.Sub(t, nt)}, true
-		case "NewTimer", "NewTicker", "AfterFunc", "After", "Tick", "Sleep":
+		case "Sleep":
+			// with a bounded clock step the sleep itself is what lets time pass
+			if e.cfg != nil && e.cfg.ClockStepNs > 0 && st.lastNow != nil {
+				if d, ok := scalarOf(args[0]); ok {
+					pos0 := b.Ite(b.Sle(d, b.BV(64, 0)), b.BV(64, 0), d)
+					st.lastNow = b.Add(st.lastNow, pos0)
+				}
+			}
+			return e.zeroResults(callee), true
+		case "NewTimer", "NewTicker", "AfterFunc", "After", "Tick":
 			return e.zeroResults(callee), true
 		}
 		return nil, false
